@@ -106,6 +106,7 @@ pub fn lex(song: &mut Song, src: &str, lineno: isize) -> Vec<Token> {
             // Upper command
             'A'..='Z' | '_' => {
                 cur.prev();
+                cur.replace_char(ch); // full-width letter: re-read it as the half-width one
                 if cur.eq("End") || cur.eq("END") { // それ移行をコンパイルしない
                     let last_comment = cur.cur2end();
                     cur.next_n(last_comment.len());
@@ -116,6 +117,7 @@ pub fn lex(song: &mut Song, src: &str, lineno: isize) -> Vec<Token> {
             },
             '#' => { // @ Macro - マクロ定義 (ex) #A={cdefg}
                 cur.prev();
+                cur.replace_char(ch);
                 if cur.eq("##") || cur.eq("# ") || cur.eq("#-") { // なんかみんなが使っているので一行コメントと見なす
                     cur.get_token_ch('\n');
                     continue;
@@ -139,6 +141,7 @@ pub fn lex(song: &mut Song, src: &str, lineno: isize) -> Vec<Token> {
             */
             '/' => {
                 cur.prev();
+                cur.replace_char(ch);
                 if cur.eq("///") {
                     let line_comment = cur.get_token_ch('\n');
                     let mut tok = Token::new_const(TokenType::Comment, 0, Some(line_comment), TokenValueType::VOID);
@@ -1411,6 +1414,7 @@ fn read_command_div(cur: &mut SourceCursor, song: &mut Song, need2back: bool) ->
     // is 1char command
     if need2back {
         cur.prev();
+        cur.replace_char('{');
     } else {
         cur.skip_space();
     }
